@@ -67,9 +67,9 @@ def generate(tier, seed):
             cases.append(dict(op='rev', enc=enc, rows=rows))
 
     # ---- tr: all codons, all pairs, random concatenations
-    cases.append(dict(op='tr', rows=CODONS))
     for rows in _pack(CODONS, 8):
         cases.append(dict(op='tr', rows=rows + ['']))
+    cases.append(dict(op='tr', rows=CODONS))
     pairs = [a + b for a in CODONS for b in CODONS]
     for rows in _pack(pairs, 64):
         cases.append(dict(op='tr', rows=rows))
